@@ -55,6 +55,8 @@ def check_module(name, repo, workdir):
     """-> list of (obligation name, ok, message)"""
     if name in schemas.PIN_AREAS:
         return check_pins(name, repo)
+    if name in schemas.EQUIV_ONLY:
+        return check_equiv(schemas.EQUIV_ONLY[name], workdir)
     mod = schemas.MODULES[name]
     out = []
     gen_file = os.path.join(workdir, mod['module'] + '.v')
@@ -72,19 +74,25 @@ def check_module(name, repo, workdir):
     out.append(('typecheck VaktGen.%s' % mod['module'], rc == 0, log[-1500:]))
     if rc != 0:
         return out
-    eq_src = os.path.join(COQ, 'Equiv', mod['module'] + 'E.v')
+    return out + check_equiv(mod['module'] + 'E', workdir)
+
+
+def check_equiv(fname, workdir):
+    """compile coq/Equiv/<fname>.v against the generated modules in workdir; one obligation per lemma"""
+    out = []
+    eq_src = os.path.join(COQ, 'Equiv', fname + '.v')
     eq_text = open(eq_src).read()
     bad = [t for t in ('Admitted', 'admit', 'Axiom', 'Parameter', 'Conjecture', 'Unset Guard', 'bypass_check')
            if re.search(r'\b%s\b' % t, re.sub(r'\(\*.*?\*\)', '', eq_text, flags=re.S))]
-    shutil.copy(eq_src, os.path.join(workdir, mod['module'] + 'E.v'))
-    rc, log = _coqc(workdir, mod['module'] + 'E.v')
+    shutil.copy(eq_src, os.path.join(workdir, fname + '.v'))
+    rc, log = _coqc(workdir, fname + '.v')
     names = lemma_names(eq_text)
     closed = log.count('Closed under the global context')
     want_closed = len(re.findall(r'^\s*Print Assumptions', eq_text, flags=re.M))
     ok = rc == 0 and not bad and closed == want_closed
     msg = '' if ok else ('forbidden %r ' % bad if bad else '') + log[-1500:]
     for n in names:
-        out.append(('equivalence %s.%s' % (mod['module'] + 'E', n), ok, msg))
+        out.append(('equivalence %s.%s' % (fname, n), ok, msg))
     return out
 
 
@@ -129,7 +137,7 @@ def main(argv):
             keep = args.pop(0)
         else:
             mods.append(a)
-    mods = mods or (list(schemas.MODULES) + list(schemas.PIN_AREAS))
+    mods = mods or (list(schemas.MODULES) + list(schemas.EQUIV_ONLY) + list(schemas.PIN_AREAS))
     if keep:
         os.makedirs(keep, exist_ok=True)
         rc = 0
